@@ -12,8 +12,8 @@ import (
 )
 
 func init() {
-	generators["C07"] = func(c *Ctx) { genDkgRuns(c, "C07") }
-	generators["C08"] = func(c *Ctx) { genDkgRuns(c, "C08") }
+	generators["C07"] = func(c *Ctx) { genDkgRuns(c, "C07"); genLargeCommittee(c) }
+	generators["C08"] = func(c *Ctx) { genDkgRuns(c, "C08"); genLargeCommittee(c) }
 }
 
 type qmsg struct {
@@ -654,6 +654,35 @@ func genFvssOrders(c *Ctx) {
 					verdict = fmt.Sprintf("violated: plain Feldman VSS refused a valid dealing (vector %s share %s): %s", vk, sk, nd.endRes)
 				}
 				c.Case("fvss-orders-predicate", fmt.Sprintf("expect ok #%s/%s/%d", vk, sk, order), verdict)
+			}
+		}
+	}
+}
+
+// genLargeCommittee: honest dealings in committees of 130 and 254 participants, seen by receivers at the indices where
+// small-exponent arithmetic changes its length (63, 64, 126..129, 253): vector and share in round one, both timeouts,
+// End. A receiver whose index makes the public key shares come out wrong would complain against an honest dealer or
+// fail. Only the receiver under observation is instantiated (the others are silent, which Feldman-VSS-Qual tolerates).
+func genLargeCommittee(c *Ctx) {
+	seedHex := hx(c.bytes(32))
+	for _, n := range []int{130, 254} {
+		for _, t := range []int{1, 3} {
+			pl := c.randPoly(t)
+			vec := hx(pl.vectorMsg())
+			for _, me := range []int{1, 63, 64, 126, 127, 128, 129, n - 1} {
+				if me >= n {
+					continue
+				}
+				for _, proto := range []string{"fvssq", "fvss"} {
+					d, err := newDkgNode(proto, n, t, me, 0)
+					if err != nil {
+						panic(err)
+					}
+					for _, tok := range []string{"S:" + seedHex, "B:0:" + vec, "P:0:" + hx(shareMsg(pl.eval(me+1))), "T", "T", "E"} {
+						d.call(tok)
+					}
+					c.Case(fmt.Sprintf("large-committee/%s/n=%d", proto, n), d.line(), d.answer())
+				}
 			}
 		}
 	}
